@@ -205,6 +205,8 @@ def to_str(I, v):
         return VStr(fn('py_str_of_any', core.AnySort(), S())(v.t))
     if isinstance(v, VRef):
         return VStr(fn('py_str_of_ref', core.RefSort(), S())(v.t))
+    if isinstance(v, (VExc, VCons)):
+        return VStr(core.fresh('str_of_obj', S()))
     raise Unsupported('str(%r)' % (v,))
 
 
